@@ -227,8 +227,32 @@ def run_reactor(case, want_smarts=False, prune=True):
             return orig_dedup(ms, *a, **k)
         return ms
 
+    # visiting order of every hydrogen-transfer group inside _explicit_h (a Python set: hash-table order, not sorted order;
+    # the first-fit pairing depends on it as soon as a group has two donors and two recipients) -- an oracle input of the model
+    import networkx as _nx
+    orig_ex = SR.SynReactor.__dict__["_explicit_h"].__func__
+    orig_cc = _nx.connected_components
+    rec.ex_orders = []        # one entry per _explicit_h call (= per glued graph, in its_list order): [visiting order of each group]
+    ex_state = {"cur": None}
+
+    def cc(G):
+        for comp in orig_cc(G):
+            if ex_state["cur"] is not None:
+                ex_state["cur"].append([n for n in comp])
+            yield comp
+
+    def ex(g):
+        ex_state["cur"] = []
+        try:
+            return orig_ex(g)
+        finally:
+            rec.ex_orders.append(ex_state["cur"])
+            ex_state["cur"] = None
+
     SR.SynReactor._glue_graph = staticmethod(glue)
     SR.SynReactor._get_explicit_map = staticmethod(gem)
+    SR.SynReactor._explicit_h = staticmethod(ex)
+    _nx.connected_components = cc
     SR.deduplicate_matches_by_automorphisms = dedup
     try:
         opts = dict(case.get("opts") or {})
@@ -320,8 +344,34 @@ def run_reactor(case, want_smarts=False, prune=True):
     finally:
         SR.SynReactor._glue_graph = staticmethod(orig_glue)
         SR.SynReactor._get_explicit_map = staticmethod(orig_gem)
+        SR.SynReactor._explicit_h = staticmethod(orig_ex)
+        _nx.connected_components = orig_cc
         SR.deduplicate_matches_by_automorphisms = orig_dedup
     return rec
+
+
+def order_tables(rec, maxm, maxr, valid_of):
+    """per call (first maxm), per (re)mapping (first maxr): the visiting orders of the hydrogen-transfer groups that are NOT the
+    sorted order (the model's default), read off the recording around _explicit_h; [] where _explicit_h did not run"""
+    tbls = []
+    k = 0
+    for ci, (m, remaps, hx, out) in enumerate(rec.glue_calls):
+        ms = [m] if remaps is None else remaps
+        valid = valid_of(ci)
+        row = []
+        j = 0
+        for q, mm in enumerate(ms[:maxr]):
+            if not valid[q]:
+                row.append([])
+                continue
+            idx = k + j
+            orders = rec.ex_orders[idx] if idx < len(rec.ex_orders) else []
+            row.append([[int(x) for x in o] for o in orders if len(o) >= 2 and list(o) != sorted(o)])
+            j += 1
+        if ci < maxm:
+            tbls.append(row)
+        k += len(out)
+    return tbls
 
 
 def _gsig(g):
